@@ -466,6 +466,38 @@ def braket(bra, ket):
     return bra.N == ket.N and all(bra.A[n].s == ket.A[n].s for n in range(ket.N))
 
 
+def to_pbc(O, dn):
+    """The OBC MPO O as a periodic MPO whose tensors are rotated by dn sites: the operator with site n relabelled (n + dn) % N
+    (exact for non-fermionic spaces; the bond that wraps around the chain is the one between old sites N-dn-1 and N-dn)."""
+    N = O.N
+    P = mps.Mpo(N, periodic=True)
+    for n in range(N):
+        P[(n + dn) % N] = O[n].copy()
+    P.factor = O.factor
+    return P
+
+
+def pbc_able(O, dn):
+    """A chain can be closed into a ring only if its two end legs match (charge-neutral operator, no meta-fused virtual legs).
+    The bond that ends up wrapping around must be an elementary leg: Env_mps_mpopbc_mps / _zipper_MpoPBC build eye(legs=<wrap leg>),
+    which rejects legs carrying a block ('sum') history such as the virtual legs of mps.add results (observation, DESIGN 7.4)."""
+    lf, ll = O.virtual_leg('first'), O.virtual_leg('last')
+    if O.pC is not None or hasattr(lf, "legs") or hasattr(ll, "legs") or lf != ll.conj() or any(O.A[n].mfs != ((1,),) * 4 for n in range(O.N)):
+        return False
+    wrap = O.A[(-dn) % O.N].get_legs(0)       # first virtual leg of the tensor that becomes site 0
+    return not wrap.is_fused()
+
+
+def rotate_sites_dense(arr, N, dn):
+    perm = [(m - dn) % N for m in range(N)]
+    return np.transpose(arr, perm + [N + q for q in perm])
+
+
+def _bosonic(space):
+    f = space.fermionic
+    return not (any(f) if isinstance(f, (tuple, list)) else f)
+
+
 @e1.register
 class MAdd(e1.Op):
     name = "m_add"
@@ -651,6 +683,14 @@ class MMeasure(e1.Op):
         if any(o is None for o in ops_):
             return None
         amps = [round(rng.uniform(-2, 2), 3) for _ in ops_]
+        if kind == "mpo" and g.task.N >= 2 and _bosonic(g.task.space) and rng.random() < 0.5:
+            # periodic MPO (C06 "periodic MPOs"): the picked operator with its tensors rotated around the ring; Env_mps_mpopbc_mps contracts
+            # bra and ket end legs with an identity, so both must carry the same total charge
+            vo, vb = g.val(ops_[0]), g.val(bra)
+            dn = rng.randrange(g.task.N)
+            same_ends = all(vb.virtual_leg(e) == vk.virtual_leg(e) for e in ("first", "last"))
+            if same_ends and pbc_able(vo, dn) and applies_to(to_pbc(vo, dn), vk) and max(vo.get_bond_dimensions()) ** 2 * max(vk.get_bond_dimensions()) * max(vb.get_bond_dimensions()) <= 4096:
+                return {"op": "m_measure", "in": [bra, ket] + ops_, "args": {"kind": "mpo_pbc", "amps": [1.0], "dn": dn}}
         if len(ops_) == 1 and rng.random() < 0.5:
             # <O psi| O |psi>: non-zero also for operators that change the total charge
             vo = g.val(ops_[0])
@@ -669,6 +709,9 @@ class MMeasure(e1.Op):
             return [mps.vdot(bra, ops_[0], ket)]
         if k == "mpo":
             return [mps.measure_mpo(bra, ops_[0], ket)]
+        if k == "mpo_pbc":
+            core.current_world().probes["measure_mpo_periodic"] += 1
+            return [mps.measure_mpo(bra, to_pbc(ops_[0], rec["args"]["dn"]), ket)]
         if k == "mpo_reversed":
             # the same number with every object reversed (charges of bra/op/ket move to the other ends of the chain)
             return [mps.measure_mpo(bra.reverse_sites(), ops_[0].reverse_sites(), ket.reverse_sites())]
@@ -681,6 +724,8 @@ class MMeasure(e1.Op):
         b, kt = sins[0].reshape(-1), sins[1].reshape(-1)
         if k == "overlap":
             return [complex(np.vdot(b, kt))]
+        if k == "mpo_pbc":
+            return [complex(np.vdot(b, mps_dense.as_matrix(rotate_sites_dense(sins[2], N, rec["args"]["dn"]), N) @ kt))]
         Ms = [mps_dense.as_matrix(s, N) for s in sins[2:]]
         if k in ("vdot", "mpo", "mpo_reversed"):
             return [complex(np.vdot(b, Ms[0] @ kt))]
@@ -698,12 +743,23 @@ class MZipper(e1.Op):
         b = pick(g, lambda v, sh: sh is not None and v.pC is None and applies_to(g.val(a), v) and max(v.get_bond_dimensions()) * max(g.val(a).get_bond_dimensions()) <= 64)
         if b is None:
             return None
-        return {"op": "m_zipper", "in": [a, b], "args": {"normalize": g.rng.random() < 0.4}}
+        args = {"normalize": g.rng.random() < 0.4}
+        if g.val(b).nr_phys == 1 and g.task.N >= 2 and _bosonic(g.task.space) and g.rng.random() < 0.35:
+            dn = g.rng.randrange(g.task.N)          # periodic MPO applied to an MPS (_zipper_MpoPBC)
+            if pbc_able(g.val(a), dn) and applies_to(to_pbc(g.val(a), dn), g.val(b)):
+                args["pbc"] = dn
+        return {"op": "m_zipper", "in": [a, b], "args": args}
 
     def run(self, task, rec, ins):
-        return [mps.zipper(ins[0], ins[1], opts_svd={"tol": 1e-14}, normalize=rec["args"]["normalize"])]
+        a = ins[0]
+        if rec["args"].get("pbc") is not None:
+            core.current_world().probes["zipper_periodic"] += 1
+            a = to_pbc(a, rec["args"]["pbc"])
+        return [mps.zipper(a, ins[1], opts_svd={"tol": 1e-14}, normalize=rec["args"]["normalize"])]
 
     def shadow(self, task, rec, sins, outs, ins=None):
+        if rec["args"].get("pbc") is not None:
+            sins = [rotate_sites_dense(sins[0], task.N, rec["args"]["pbc"])] + list(sins[1:])
         r = MMatmul.shadow(self, task, rec, sins, outs, ins)[0]
         if rec["args"]["normalize"]:
             nr = float(np.linalg.norm(r.reshape(-1)))
